@@ -21,6 +21,12 @@ import (
 func (r *Runner) execEncPlan(op *OpSpec, st *Step) *Rec {
 	v := r.buildValue(op)
 	shape := v.sd.Shape()
+	nilPtr := op.VSeed%23 == 0 // a typed nil pointer is an accepted argument: it denotes the empty struct
+	if nilPtr {
+		v.w = model.NewW(model.WStruct)
+		v.ptr = reflect.Zero(v.ptr.Type())
+		shape = "nil-pointer/" + shape
+	}
 	res := &Rec{Cls: "ok", Tag: "encplan/" + shape}
 	fail := func(sig, msg string) {
 		r.violation("C04", "C04/"+sig, fmt.Sprintf("%s value=%s: %s", op.Type, v.w.String(), msg), st)
@@ -31,7 +37,10 @@ func (r *Runner) execEncPlan(op *OpSpec, st *Step) *Rec {
 		res.Cls, res.Err = "panic", pt
 		return res
 	}
-	sv, pc, pt := callSize(v.arg(true))
+	sv := sp
+	if !nilPtr {
+		sv, pc, pt = callSize(v.arg(true))
+	}
 	if pc != "" {
 		fail("size-panic/value", "EncodedSize(struct value) panicked: "+pt)
 		res.Cls, res.Err = "panic", pt
@@ -71,7 +80,7 @@ func (r *Runner) execEncPlan(op *OpSpec, st *Step) *Rec {
 	var firstOut string
 	for pi, p := range plans {
 		for form := 0; form < 2; form++ {
-			if form == 1 && pi > 8 && pi%5 != 0 {
+			if form == 1 && (nilPtr || (pi > 8 && pi%5 != 0)) {
 				continue // by-value: the whole plan for the main cases, a sample of the shortfalls
 			}
 			arg := v.arg(form == 1)
@@ -100,6 +109,10 @@ func (r *Runner) execEncPlan(op *OpSpec, st *Step) *Rec {
 					fail("sufficient-buffer-error", what()+": error "+err.Error())
 				} else if n != s {
 					fail("size-mismatch", fmt.Sprintf("%s: EncodeObject wrote %d bytes, EncodedSize said %d", what(), n, s))
+				} else if a != nil && n > 0 && a.buf()[n-1] != 0 {
+					// every message ends with the STOP byte of its outermost struct: if that byte is not there, the n
+					// bytes EncodeObject reports are not in the caller's buffer (what they say is not judged here)
+					fail("buffer-not-written", what()+": returned n="+strconv.Itoa(n)+" but buf[n-1] is not the final STOP byte: the message is not in the caller's buffer")
 				} else if a != nil && firstOut == "" {
 					// (whether the bytes are the right message is C02's business, whether a second call yields the
 					// same ones C16's; here they only feed the digest that other oracles compare)
@@ -201,7 +214,8 @@ func panicKind(t string) string {
 func (r *Runner) execDecEnum(op *OpSpec, st *Step) *Rec {
 	sd := r.C.Get(op.Type)
 	rt := corpus.Types[op.Type]
-	base := model.GenValue(r.C, sd, op.VSeed, model.VOpt{Budget: op.Budget, Foreign: op.Foreign}).Bytes()
+	var tr model.Tracker
+	base := model.GenValue(r.C, sd, op.VSeed, model.VOpt{Budget: op.Budget, Foreign: op.Foreign}).AppendT(nil, &tr)
 	res := &Rec{Cls: "ok", Tag: "decenum/" + sd.Shape(), N: len(base)}
 	if len(base) > 600 {
 		// too long to enumerate: seeded sample of positions
@@ -235,6 +249,25 @@ func (r *Runner) execDecEnum(op *OpSpec, st *Step) *Rec {
 			copy(mut, base)
 			mut[k] = v
 			run(mut, "byte", "byte "+strconv.Itoa(k)+" of "+strconv.Itoa(len(base))+": "+strconv.Itoa(int(o))+" -> "+strconv.Itoa(int(v)))
+		}
+	}
+	// every type-code position (field, element, key, value type) x every byte value
+	if len(base) <= 600 {
+		for _, p := range tr.P {
+			switch p.Kind {
+			case "ftype", "etype", "ktype", "vtype":
+			default:
+				continue
+			}
+			o := base[p.Off]
+			for v := 0; v < 256; v++ {
+				if byte(v) == o {
+					continue
+				}
+				copy(mut, base)
+				mut[p.Off] = byte(v)
+				run(mut, "typecode", p.Kind+" at "+strconv.Itoa(p.Off)+": "+strconv.Itoa(int(o))+" -> "+strconv.Itoa(v))
+			}
 		}
 	}
 	res.D = "decenum"
